@@ -5,7 +5,7 @@ from contracts import specs
 ID = "C41"
 FRAG = "paramiko.hostkeys.HostKeys.load::whole-loop#1"
 TARGETS = [(FRAG, "two-hostnames", {}), (FRAG, "three-hostnames", {"+n": 3})]
-REPLAY = {"*": "c41.replay_load_twice", "check": "c41.check_agrees_with_lookup"}
+REPLAY = {"*": "c41.replay_load_twice", "check": "c41.check_agrees_with_lookup", "the_only_state_of_HostKeys": "c41.lookup_follows_the_entries"}
 
 
 def make_pre(n):
@@ -106,6 +106,36 @@ def setup_has_entry(E):
     return dict(params={"hostname": "str", "key": "opaque:PKey"}, pre_hook=pre_entries, returns="bool",
                 ensures={"true_iff_some_entry_lists_the_host_with_exactly_this_key": "result == (%s or %s)" % (same("e0"), same("e1"))},
                 raises={}, modifies=[])
+
+def lemmas(E):
+    """lookup / check are functions of the entries: HostKeys keeps no other state - every `self.<attr> = ...` in the class
+    stores into _entries (a cache of earlier answers would have to be invalidated by every way an entry can be added, by
+    plain or by hashed name; there is none to get wrong)"""
+    import ast
+    import z3
+    out = []
+    n = 0
+    for qn, fi in sorted(E.src.funcs.items()):
+        if not qn.startswith("paramiko.hostkeys.HostKeys.") or "::" in qn or ".<locals>." in qn:
+            continue
+        def walk_own(node):
+            # the function's own statements, not those of classes or functions defined inside it (lookup's SubDict)
+            for ch in ast.iter_child_nodes(node):
+                if isinstance(ch, (ast.ClassDef, ast.FunctionDef, ast.Lambda)):
+                    continue
+                yield ch
+                yield from walk_own(ch)
+        for a in walk_own(fi.node):
+            tg = a.targets if isinstance(a, ast.Assign) else ([a.target] if isinstance(a, (ast.AugAssign, ast.AnnAssign)) else [])
+            for t in tg:
+                for x in ast.walk(t):
+                    if isinstance(x, ast.Attribute) and isinstance(x.value, ast.Name) and x.value.id == "self":
+                        n += 1
+                        out.append(("structure::the_only_state_of_HostKeys_is_its_entries(%s.%s)" % (qn.rsplit(".", 1)[-1], x.attr), [],
+                                    z3.BoolVal(x.attr == "_entries")))
+    out.append(("structure::HostKeys_state_found", [], z3.BoolVal(n >= 1)))
+    return out
+
 
 CLAIMED = True
 LEVEL_TEXT = ("Proof (real iterator semantics) that load()'s duplicate-suppression loop leaves in a freshly parsed entry exactly "
